@@ -51,7 +51,11 @@ MANIFEST = {
                      "cancel / close with 2+2 ops. Seeded stress (p producers, r receivers, random cancels and closes, Gosched injection, unique message "
                      "ids, payload digests at callback entry and exit) on the real TellHub, AskHub and Queue is recorded with one atomic counter and "
                      "checked as a concurrent history by TLC (linearisability against the rendezvous specification; commit points are the observed "
-                     "callback entries); cancellation promptness of Receive/ServeAsk is driven on every stack incl. udpswarm on a real socket.",
+                     "callback entries); cancellation promptness of Receive/ServeAsk is driven on every stack incl. udpswarm on a real socket. udpswarm's own "
+                     "receive loop (semaphore + 25 ms poll) is modelled in UdpRecv.tla (NotLostByCancel, ExactlyOnce, CancelEnds checked by TLC); TLC-generated "
+                     "schedules of the receive / cancel / Tell race (k in {1,2,3} receivers, one or all but one cancelled before / at the same moment as / "
+                     "after the Tell, sequentially and from racing goroutines, every schedule repeated) run on real udpswarm sockets and on memswarm; every "
+                     "told datagram must reach exactly one callback. A loss in the control phase (no cancellation) is INCONCLUSIVE.",
                 note="As C12. Histories are cut into windows (one fresh hub per window) so validation is linear. FIFO order of the queue is not part of the verdict.",
                 ref="5 (C13), 3.1, Appendix B"),
 }
@@ -60,6 +64,7 @@ C12_OPS = {"CloseEnds", "ErrAfterClose", "NoLateCallback", "CloseIdempotent", "C
 C13_OPS = {"ExactlyOnce", "OkOnlyAfterCallback", "ErrOnlyIfUnseen", "NotLostByCancel", "RetTruthful", "CancelPrompt",
            "NoStaleContent", "OnlyDelivered", "QueueBounded"}
 TIMING_OPS = {"CloseEnds", "CloseReturns", "CloseIdempotent", "CancelPrompt", "AllReleased"}
+# NotLostByCancel on the datagram level waits (1 s) for a delivery: believed only if reproduced as well
 KIND_NAME = {"recv": "Receive", "serve": "ServeAsk", "deliver": "Deliver", "qdeliver": "Deliver", "tell": "Tell", "ask": "Ask",
              "close": "Close", "close2": "Close-repeated", "purge": "Purge", "process": "process", "": "-"}
 STACKS = ["memswarm", "fragswarm", "mbapp", "p2pmux", "multiswarm", "p2pkeswarm", "quicswarm", "sshswarm", "udpswarm"]
@@ -71,16 +76,23 @@ MODEL_W = 2        # W in spec/HubsGen_*.cfg: the stack's worker count in model 
 CLASSES = ([(b, ph, 1 if ph == "pre" else 0) for b in BS for ph in PHASES if not (b == 0 and ph == "cancel")]
            + [(b, "backlog", k) for b in BS for k in (MODEL_W, 2 * MODEL_W)]
            + [(0, "cbbacklog", k) for k in (1, MODEL_W, 2 * MODEL_W)])
+# receive / cancel / Tell race (spec/UdpRecv.tla): stacks whose Receive is its own loop, not a hub
+RACE_STACKS = ["udpswarm", "memswarm"]
+RACE_CLASSES = ([(k, 0, "control") for k in (1, 2, 3)]
+                + [(k, nc, pos) for k in (1, 2, 3) for nc in (1, 2) for pos in ("before", "ct", "tc", "after")
+                   if nc <= k and (nc < k or k == 1 or pos != "after") and (pos != "after" or k > 1) and (nc != 2 or k >= 2)])
+RACE_PHASE = {"before": "cancel-before-tell", "ct": "cancel-then-tell", "tc": "tell-then-cancel", "after": "cancel-after-delivery",
+              "control": "control"}
 BACKLOG_PROCS = {"quick": [2], "thorough": [2, 0]}   # GOMAXPROCS of the child running the backlog scripts (0: default)
 
 TIERS = {
     "quick": dict(sims=400, per_class=1,
-                  stress={"C12": 400, "C13": 1500},
+                  stress={"C12": 400, "C13": 1500}, race_rounds=6, race_sims=300,
                   mc={"C12": ["Hubs_tell.cfg", "Hubs_ask.cfg", "Hubs_queue.cfg"],
                       "C13": ["Hubs_tell.cfg", "Hubs_ask.cfg", "Hubs_queue.cfg"]},
                   bugs=[]),
     "thorough": dict(sims=1500, per_class=4,
-                     stress={"C12": 4000, "C13": 12000},
+                     stress={"C12": 4000, "C13": 12000}, race_rounds=40, race_sims=1000,
                      mc={"C12": ["Hubs_tell_deep12.cfg", "Hubs_ask_deep12.cfg", "Hubs_queue_deep12.cfg"],
                          "C13": ["Hubs_tell_deep13.cfg", "Hubs_ask_deep13.cfg", "Hubs_queue_deep13.cfg",
                                  "Hubs_tell_live.cfg", "Hubs_ask_live.cfg", "Hubs_queue_live.cfg"]},
@@ -96,13 +108,14 @@ def model_check(pid, tier, stats):
     T = TIERS[tier]
 
     def one(cfg):
-        res = core.tlc("Hubs", cfg, workers=4, timeout=1500, label="mc-" + cfg[:-4])
+        res = core.tlc("UdpRecv" if cfg.startswith("UdpRecv") else "Hubs", cfg, workers=4, timeout=1500, label="mc-" + cfg[:-4],
+                       short=cfg.startswith("UdpRecv"))
         core.tlc_ok_or_inconclusive(res, "MC Hubs/" + cfg)
         stats["mc"][cfg] = dict(states=res.distinct, transitions=res.generated, depth=res.depth, wall=round(res.wall, 1))
 
     def bug(cfg, expect):
         # the properties must tell: with the code as it was before the repair the model violates them
-        res = core.tlc("Hubs", cfg, workers=2, timeout=600, label="mcbug-" + cfg[:-4], short=True)
+        res = core.tlc("UdpRecv" if cfg.startswith("UdpRecv") else "Hubs", cfg, workers=2, timeout=600, label="mcbug-" + cfg[:-4], short=True)
         hit = res.violated or [e for e in res.errors if "violated" in e]
         if not hit or not any(x in str(h) for h in hit + res.errors for x in expect):
             raise core.Inconclusive("self-test: %s should violate %s in the model but TLC reported %s" % (cfg, expect, res.errors[:2]))
@@ -110,8 +123,8 @@ def model_check(pid, tier, stats):
 
     par = 3 if tier == "thorough" else 2
     ex = ThreadPoolExecutor(max_workers=par)
-    futs = [ex.submit(one, cfg) for cfg in T["mc"][pid]]
-    futs += [ex.submit(bug, cfg, expect) for cfg, expect in T["bugs"]]
+    futs = [ex.submit(one, cfg) for cfg in T["mc"][pid] + (["UdpRecv.cfg"] if pid == "C13" else [])]
+    futs += [ex.submit(bug, cfg, expect) for cfg, expect in T["bugs"] + ([("UdpRecv_seeded.cfg", ("Safety",))] if pid == "C13" and T["bugs"] else [])]
     return ex, futs
 
 
@@ -172,6 +185,45 @@ def generate_scripts(tier, stats):
                     scripts.append(dict(id=len(scripts), hub=hub, b=b, ph=ph, k=k, w=MODEL_W, procs=0, reply=True, steps=steps))
         stats["gen"][hub] = dict(behaviours=len(behs), classes=len(classes), distinct=len({canon(b[2]) for b in behs}))
     return scripts, behaviours
+
+
+def generate_race_scripts(tier, stats):
+    """Schedules of the receive / cancel / Tell race from TLC (simulation of UdpRecvGen.tla).  The model UdpRecv.tla
+    itself is model-checked by model_check(); in the thorough tier its seeded variant must violate Safety."""
+    T = TIERS[tier]
+    behs = []
+    for attempt in range(3):
+        res = core.tlc("UdpRecvGen", "UdpRecvGen.cfg", workers=1, simulate=T["race_sims"], depth=200,
+                       tlc_seed=core.seed() + 104729 * attempt, timeout=900, label="gen-race", short=True)
+        core.tlc_ok_or_inconclusive(res, "UdpRecvGen")
+        behs += res.printed("RACE")
+        if not set(RACE_CLASSES) - {(b[1]["k"], b[1]["nc"], b[1]["pos"]) for b in behs}:
+            break
+    classes = {}
+    for b in behs:
+        goal, hist = b[1], b[2]
+        # which role the victims have when cancelled (inside the read / waiting for the semaphore / in the callback)
+        pcs, roles = {}, []
+        for st in hist:
+            if st["a"] == "Cancel":
+                roles.append(pcs.get(st["op"], "?"))
+            elif st["pc"]:
+                pcs[st["op"]] = st["pc"]
+        order = tuple(st["a"] for st in hist if st["a"] in ("RCall", "Cancel", "Tell"))
+        classes.setdefault((goal["k"], goal["nc"], goal["pos"]), {}).setdefault((tuple(roles), order), hist)
+    missing = [c for c in RACE_CLASSES if c not in classes]
+    if missing:
+        raise core.Inconclusive("UdpRecvGen: the simulation reached no behaviour for the classes %s" % missing)
+    scripts = []
+    for (k, nc, pos), d in sorted(classes.items()):
+        for _sig, hist in sorted(d.items())[:(3 if tier == "quick" else 6)]:
+            steps = [dict(a=x["a"], op=x["op"], pc=x["pc"]) for x in hist]
+            scripts.append(dict(id=len(scripts), k=k, nc=nc, pos=pos, race=False, steps=steps))
+            if pos in ("ct", "tc"):
+                # "at the same moment": the cancel(s) and the Tell from racing goroutines
+                scripts.append(dict(id=len(scripts), k=k, nc=nc, pos=pos, race=True, steps=steps))
+    stats["gen"]["race"] = dict(behaviours=len(behs), classes=len(classes), scripts=len(scripts))
+    return scripts
 
 
 # ----------------------------------------------------------------------------
@@ -258,6 +310,11 @@ def classify(name, e, w):
             "%d goroutine(s) in %s still alive after Close of the %s stack and the grace period (%s)" % (e["n"], e["fn"], comp, e["info"]))
     if op in ("CloseReturns", "CloseIdempotent"):
         phase = w.get("phase", "")
+    if w.get("lvl") == "dgram":
+        base, _, var = w.get("phase", "").partition("+")
+        phase = RACE_PHASE.get(base, base) + (("+" + var) if var else "")
+        if op == "NotLostByCancel":
+            kind = "Receive"
     key = "%s:%s:%s/%s%s" % (pid, op, comp, kind, ("-" + phase) if phase else "")
     descr = {
         "CloseEnds": "%s on %s had not returned 1 s after Close returned (%s)" % (kind, comp, {"blocked": "it was blocked when Close was called", "late": "it was called after Close returned", "racing": "it was called while Close ran"}.get(phase, phase)),
@@ -269,7 +326,8 @@ def classify(name, e, w):
         "ExactlyOnce": "a message was handed to a second receiver callback on %s" % comp,
         "OkOnlyAfterCallback": "Deliver on %s returned success before/without the callback finishing" % comp,
         "ErrOnlyIfUnseen": "a message whose Deliver on %s returned an error was seen by a callback" % comp,
-        "NotLostByCancel": "a message accepted by %s was never handed to a callback" % comp,
+        "NotLostByCancel": ("a datagram told to %s was seen by no receiver callback although a healthy Receive was waiting (%s, %s)" % (comp, phase, w.get("info", ""))
+                            if w.get("lvl") == "dgram" else "a message accepted by %s was never handed to a callback" % comp),
         "RetTruthful": "%s on %s returned %s, which its history does not justify" % (kind, comp, e.get("res")),
         "NoStaleContent": "the payload seen by a callback on %s is not what the deliverer wrote" % comp,
         "OnlyDelivered": "a callback on %s saw a message nobody delivered" % comp,
@@ -278,7 +336,8 @@ def classify(name, e, w):
     return pid, key, descr
 
 
-def record_and_validate(binp, d, tag, stress_windows, scripts, stacks, model_events, stats, comps="tellhub,askhub,queue"):
+def record_and_validate(binp, d, tag, stress_windows, scripts, stacks, model_events, stats, comps="tellhub,askhub,queue",
+                        race=None):
     """Runs the recorder (stress and/or matrix), validates everything in ONE TLC run.
     Returns (events, viol, drift) where viol/drift are [(name, event, window)]."""
     env = dict(os.environ, VERIF_SEED=str(core.seed()))
@@ -300,13 +359,27 @@ def record_and_validate(binp, d, tag, stress_windows, scripts, stacks, model_eve
         core.run([binp, "-mode", "matrix", "-scripts", sp, "-stacks", ",".join(stacks), "-out", p], timeout=1500, env=env)
         return p
 
-    with ThreadPoolExecutor(max_workers=2) as ex:
+    def racerun():
+        rscripts, rstacks, rounds = race
+        sp = os.path.join(d, "race_%s.json" % tag)
+        with open(sp, "w") as f:
+            for s in rscripts:
+                f.write(json.dumps(s) + "\n")
+        p = os.path.join(d, "race_%s.ndjson" % tag)
+        core.run([binp, "-mode", "race", "-scripts", sp, "-stacks", ",".join(rstacks), "-rounds", str(rounds), "-workers", "8",
+                  "-out", p, "-casebase", "5000000"], timeout=1500, env=env)
+        return p
+
+    with ThreadPoolExecutor(max_workers=3) as ex:
         fm = ex.submit(matrix) if scripts and stacks else None
         fs = ex.submit(stress) if stress_windows else None
+        fr = ex.submit(racerun) if race and race[0] else None
         if fm:
             files.append(fm.result())
         if fs:
             files.append(fs.result())
+        if fr:
+            files.append(fr.result())
     tr = os.path.join(d, "trace_%s.ndjson" % tag)
     events = []
     with open(tr, "w") as out:
@@ -381,9 +454,11 @@ def run_pipeline(pid, tier, replay=None):
     if replay is None:
         ex, futs = model_check(pid, tier, stats)
         scripts, behaviours = generate_scripts(tier, stats)
+        race = None
         if pid == "C13":
             # cancellation promptness on every stack; the full matrix belongs to C12
             scripts = [s for s in scripts if s["ph"] == "cancel"]
+            race = (generate_race_scripts(tier, stats), RACE_STACKS, T["race_rounds"])
         stacks = STACKS
         stress_windows = T["stress"][pid]
         model_events, expect, n_ok, n_bad = selftest_model_histories(behaviours, tier)
@@ -395,8 +470,17 @@ def run_pipeline(pid, tier, replay=None):
         stress_windows = replay.get("windows", 0)
         comps = replay.get("comp", "tellhub,askhub,queue")
         model_events, expect = [], {}
+        race = ([replay["race_script"]], [replay["stack"]], replay.get("rounds", 20)) if replay.get("race_script") else None
+        if race:
+            scripts, stacks = [], []
     stats["scripts"] = len(scripts)
-    events, viol, drift = record_and_validate(binp, d, "main", stress_windows, scripts, stacks, model_events, stats, comps)
+    stats["race_scripts"] = len(race[0]) if race else 0
+    events, viol, drift = record_and_validate(binp, d, "main", stress_windows, scripts, stacks, model_events, stats, comps, race)
+    # the race verdict assumes a lossless transport at these rates: a loss without any cancellation refutes the assumption
+    for name, e, w in viol:
+        if w.get("lvl") == "dgram" and w.get("phase") == "control" and name == "NotLostByCancel":
+            raise core.Inconclusive("control phase of the receive/cancel/Tell race lost a datagram on %s WITHOUT any cancellation (%s): "
+                                    "the lossless-transport assumption does not hold on this machine now" % (w.get("comp"), w.get("info")))
 
     # self-test of the history specification
     real_viol = []
@@ -449,7 +533,10 @@ def run_pipeline(pid, tier, replay=None):
             found[key]["count"] += 1
             continue
         payload = dict(kind="stress" if w.get("lvl") != "stack" else "matrix", operator=name, event=e, window=w)
-        if w.get("lvl") == "stack":
+        if w.get("lvl") == "dgram":
+            rid = int(w["info"].split("race=")[1].split()[0])
+            payload.update(kind="race", stack=w["comp"], rounds=20, race_script=next((x for x in race[0] if x["id"] == rid), None))
+        elif w.get("lvl") == "stack":
             sid = int(w["info"].split("script=")[1].split()[0]) if "script=" in w.get("info", "") else None
             sc = next((s for s in scripts if s["id"] == sid), None)
             payload.update(stack=w["comp"], script=sc)
@@ -458,16 +545,24 @@ def run_pipeline(pid, tier, replay=None):
         found[key] = dict(pid=p, key=key, what=what, payload=payload, op=name.partition("@")[0], count=1)
 
     confirmed = []
+    confirmed_groups = set()      # (operator, component): one reproduced key vouches for its siblings (other phases)
     for key, v in found.items():
         if v["pid"] != pid:
             continue
+        group = (v["op"], v["payload"]["window"].get("comp"))
+        if group in confirmed_groups:
+            confirmed.append(v)
+            continue
         known = {k["key"] for k in core.known_findings() if k.get("status", "open") == "open"}
-        if v["op"] in TIMING_OPS and replay is None and key not in known:
+        if (v["op"] in TIMING_OPS or v["payload"]["kind"] == "race") and replay is None and key not in known:
             pl = v["payload"]
             ok = 0
             for i in range(2):
                 st2 = dict(events=0, trace_states=0)
-                if pl["kind"] == "matrix" and pl.get("script"):
+                if pl["kind"] == "race":
+                    _, v2, _ = record_and_validate(binp, d, "confirm%d" % i, 0, [], [], [], st2,
+                                                   race=([pl["race_script"]], [pl["stack"]], 20))
+                elif pl["kind"] == "matrix" and pl.get("script"):
                     _, v2, _ = record_and_validate(binp, d, "confirm%d" % i, 0, [pl["script"]], [pl["stack"]], [], st2)
                 else:
                     _, v2, _ = record_and_validate(binp, d, "confirm%d" % i, pl.get("windows", 300), [], [], [], st2, pl.get("comp", "tellhub"))
@@ -481,6 +576,7 @@ def run_pipeline(pid, tier, replay=None):
                 core.log("timing-based observation %s was not reproduced on re-measurement (%d/2): discarded" % (key, ok))
                 stats["drift"]["not-reproduced/" + key] = 1
                 continue
+            confirmed_groups.add(group)
         confirmed.append(v)
     if futs:
         for f in futs:
@@ -515,7 +611,7 @@ def check(pid, tier, replay=None):
              "swarm stack each) recorded from the real code; distinct_nontrivial = distinct (event, kind, result) sequences among the windows "
              "that contain a callback, a cancel, a timeout or a Close",
         model_checking=stats["mc"], model_bug_selftest=stats["mc_bug_selftest"], script_generation=stats["gen"],
-        scripts_per_stack=stats["scripts"], stacks=STACKS, model_histories_accepted=stats["model_histories"],
+        scripts_per_stack=stats["scripts"], stacks=STACKS, race_schedules=stats.get("race_scripts", 0), race_stacks=RACE_STACKS, model_histories_accepted=stats["model_histories"],
         corrupted_histories_rejected=stats["corrupted_rejected"], drift=stats["drift"], confirmations=stats["confirmations"],
         exhaustive=False,
         explanation="TLC exhaustively checks Hubs.tla within the bounds of the listed configs (safety + liveness under weak fairness); TLC-generated "
